@@ -651,8 +651,13 @@ class _PairsClassifierMixin(BaseMetricLearner, ClassifierMixin):
 
     self._validate_calibration_params(strategy, min_rate, beta)
 
+    # the validation pairs are not training data: n_features_in_ keeps
+    # describing the points seen by the last fit
+    n_features_in = getattr(self, 'n_features_in_', None)
     pairs_valid, y_valid = self._prepare_inputs(pairs_valid, y_valid,
                                                 type_of_inputs='tuples')
+    if n_features_in is not None:
+      self.n_features_in_ = n_features_in
 
     n_samples = pairs_valid.shape[0]
     if strategy == 'accuracy':
